@@ -3,6 +3,14 @@
 # race_func_prefixes, min_distinct, exhaustive, assumptions, technique, level_text, level_note, design_ref.
 
 CHECKS = {
+    "C05": {
+        "level": "exploration",
+        "exhaustive": True,
+        "technique": "runtime monitoring: reference-model oracle over an exhaustively enumerated bounded configuration space + random larger maps",
+        "level_text": "All 262144 predefined-topic maps over 3 clients x 3 IDs x 3 names are enumerated and every lookup is compared with a 10-line reference (client entry, else '*' entry; ID lookup must be invertible); exhaustive for that bounded space, sampled beyond it.",
+        "level_note": "the bounded space contains every overlap/shadowing pattern between one client entry and one '*' entry; larger maps are sampled only",
+        "design_ref": "3/C05",
+    },
     "C20": {
         "level": "exploration",
         "crash_is_violation": True,
